@@ -596,8 +596,6 @@ def spec_fold(events, cfg, strict_prefix=True):
             stack.append(n)
         elif ev[0] == "e":
             flush()
-            if ev[1] == "[document]":
-                continue
             for i in range(len(stack) - 1, 0, -1):
                 if stack[i].name == ev[1] and stack[i].prefix == ev[2]:
                     del stack[i:]
